@@ -38,16 +38,28 @@ func refString(pj *simdjson.ParsedJson, payload, length uint64) ([]byte, error) 
 	return pj.Message[payload : payload+length], nil
 }
 
-// skipNops returns the first live position at or after i (below end).
+// skipNops returns the first live position at or after i (at most end). Every word passed must be a NOP whose
+// skip count is at least 1 and stays inside the gap, so that a walk may enter the gap anywhere (Lean: skipNopsD,
+// proved equivalent to Layout.Gap in Proofs/DecodeSound.lean).
 func skipNops(t []uint64, i, end int) (int, error) {
+	if i > end {
+		return 0, refErr{"nop skip overshoots"}
+	}
+	reach := i
 	for i < end && byte(t[i]>>56) == 'N' {
-		s := int(t[i] & simdjson.JSONVALUEMASK)
-		if s <= 0 {
+		s := t[i] & simdjson.JSONVALUEMASK
+		if s == 0 {
 			return 0, refErr{"nop with zero skip"}
 		}
-		i += s
+		if s > uint64(end) {
+			return 0, refErr{"nop skip overshoots"}
+		}
+		if i+int(s) > reach {
+			reach = i + int(s)
+		}
+		i++
 	}
-	if i > end {
+	if reach > i {
 		return 0, refErr{"nop skip overshoots"}
 	}
 	return i, nil
